@@ -1,6 +1,6 @@
 #include "../engine.h"
 #define P(x) Prop *make_##x();
-P(c01) P(c02) P(c03) P(c04) P(c05) P(c06) P(c07) P(c08) P(c10) P(c11) P(c12) P(c13) P(c15) P(c16) P(c19)
+P(c01) P(c02) P(c03) P(c04) P(c05) P(c06) P(c07) P(c08) P(c09) P(c10) P(c11) P(c12) P(c13) P(c15) P(c16) P(c17) P(c19) P(c20)
 #undef P
 Prop *make_prop(const std::string &id) {
 	if (id == "C01") return make_c01();
@@ -11,12 +11,15 @@ Prop *make_prop(const std::string &id) {
 	if (id == "C06") return make_c06();
 	if (id == "C07") return make_c07();
 	if (id == "C08") return make_c08();
+	if (id == "C09") return make_c09();
 	if (id == "C10") return make_c10();
 	if (id == "C11") return make_c11();
 	if (id == "C12") return make_c12();
 	if (id == "C13") return make_c13();
 	if (id == "C15") return make_c15();
 	if (id == "C16") return make_c16();
+	if (id == "C17") return make_c17();
 	if (id == "C19") return make_c19();
+	if (id == "C20") return make_c20();
 	return nullptr;
 }
